@@ -37,6 +37,24 @@ pub fn real_dec<C: Ciph>(key: &[u8], b: &mut [u8]) {
     C::new_from_slice(key).expect("key length").decrypt_block(b.try_into().expect("block length"))
 }
 
+/// the parallel width the cipher's encryption backend actually declares (hardware dependent for real ciphers)
+pub fn backend_width<C: Ciph>() -> usize {
+    use cipher::{BlockCipherEncBackend, BlockCipherEncClosure, crypto_common::BlockSizes};
+    struct Probe<'a, BS>(&'a mut usize, core::marker::PhantomData<BS>);
+    impl<BS: BlockSizes> BlockSizeUser for Probe<'_, BS> {
+        type BlockSize = BS;
+    }
+    impl<BS: BlockSizes> BlockCipherEncClosure for Probe<'_, BS> {
+        fn call<B: BlockCipherEncBackend<BlockSize = BS>>(self, _backend: &B) {
+            *self.0 = <B::ParBlocksSize as Unsigned>::USIZE;
+        }
+    }
+    let c = C::new(&Default::default());
+    let mut n = 0usize;
+    c.encrypt_with_backend(Probe(&mut n, core::marker::PhantomData));
+    n
+}
+
 /// modes available for every block size: cbc, pcbc, cfb, cfb8, ofb (+ buffered cfb, cts)
 pub fn base_cfg<C: Ciph>(cname: &str, cipher: &'static str, par: usize, sets: &'static str, enc: fn(&[u8], &mut [u8]), dec: fn(&[u8], &mut [u8])) -> Cfg {
     let bs = C::BlockSize::USIZE;
@@ -218,7 +236,7 @@ macro_rules! real_cfg {
     ($v:ident, $ty:ty, $name:literal, $sets:literal $(, $extra:ident)*) => {{
         type C = $ty;
         #[allow(unused_mut)]
-        let mut c = $crate::base_cfg::<C>($name, $name, 0, $sets, $crate::real_enc::<C>, $crate::real_dec::<C>);
+        let mut c = $crate::base_cfg::<C>($name, $name, $crate::backend_width::<C>(), $sets, $crate::real_enc::<C>, $crate::real_dec::<C>);
         $crate::add_ige::<C>(&mut c);
         $( $crate::$extra::<C>(&mut c); )*
         $v.push(c);
